@@ -5,7 +5,9 @@ package explore
 
 import (
 	"fmt"
+	"os"
 	"runtime"
+	"strconv"
 	"sort"
 	"strings"
 	"sync"
@@ -113,9 +115,15 @@ func ReplayOne(choices []Point, body func(*Ctx)) *Ctx {
 func Explore(cfg Config, body func(*Ctx)) Stats {
 	if cfg.Workers <= 0 {
 		cfg.Workers = runtime.NumCPU()
+		if w, err := strconv.Atoi(os.Getenv("VERIF_WORKERS")); err == nil && w > 0 {
+			cfg.Workers = w
+		}
 	}
 	if cfg.Serial {
 		cfg.Workers = 1
+	}
+	if m, err := strconv.ParseInt(os.Getenv("VERIF_MAXEXEC"), 10, 64); err == nil && m > 0 {
+		cfg.MaxExec = m // development aid; the cap is reported like any other
 	}
 	var (
 		mu      sync.Mutex
